@@ -96,6 +96,10 @@ prepare_next() {
     cd $POLICYDB
 
     # Cleanup leftovers from previous unsuccessful build of this policy.
+    # Marker 'failed' belongs to old directory 'next'.
+    # Remove it first, so an aborted run never leaves a new directory
+    # 'next' that is taken for the result of a failed compile.
+    rm -f $POLICYDB/failed
     rm -rf $NEXT
 
     # Create temporary directory for new policy.
